@@ -159,6 +159,12 @@ EXPORT errno_t _ctime_s_chk(char *dest, rsize_t dmax, const time_t *timer,
             handle_error(dest, dmax, "ctime_s: conversion failed", -1);
             return -1;
         }
+#ifdef SAFECLIB_STR_NULL_SLACK
+        /* converted in place: null the slack behind the terminator */
+        len = strlen(dest);
+        memset(dest + len, 0, dmax - len);
+#endif
+        return EOK;
     } else {
         char tmp[120];
         buf = ctime_r(timer, (char *)&tmp);
